@@ -335,6 +335,38 @@ def systematic(acc, zy, rnd, ctx):
                     if len(BINDINGS[bk]) > 2:
                         h.op_evaluate(pi, dict(BINDINGS[bk][1]))
                     h.op_evaluate(pi, dict(BINDINGS[bk][-1]))
+    # deterministic scenarios (every worker takes a slice): programs from ONE compiled AST bound to different function sets, in both
+    # orders; a failing evaluation followed at once by an evaluation with no bindings, then by a succeeding one
+    ovr_src = "size([1, 2, 3]) + [4, 5].size() + n"
+    fail_src = "has(m.k) ? 10 / m.k : -1"
+    scen = 0
+    for r in "IC":
+        for dk in ("none", "simple", "leaf"):
+            for order in (("plain", "override"), ("override", "plain"), ("plain", "override", "plain")):
+                scen += 1
+                if not ctx.mine(scen):
+                    continue
+                h = History(acc, zy, rnd)
+                acc.hook("history")
+                ei = h.op_env(r, dk)
+                first = h.op_program(ei, ovr_src, "override" if order[0] == "override" else False)
+                ast = h.asts[-1][0] if h.asts else None
+                pis = [first]
+                for flavour in order[1:]:
+                    pis.append(h.op_program(ei, ovr_src, "override" if flavour == "override" else False, ast=ast))
+                for pi in pis + list(reversed(pis)):
+                    if pi is not None:
+                        h.op_evaluate(pi, dict(BINDINGS["plain"][0]))
+            scen += 1
+            if ctx.mine(scen):
+                h = History(acc, zy, rnd)
+                acc.hook("history")
+                ei = h.op_env(r, dk)
+                pi = h.op_program(ei, fail_src, False)
+                if pi is not None:
+                    for b in (BINDINGS["nested"][0], BINDINGS["nested-zero"][0], {}, BINDINGS["nested"][1], BINDINGS["nested-zero"][1], {"n": ("int", 1)}, BINDINGS["nested"][2]):
+                        h.acc.hook("evaluation-after-a-failure")
+                        h.op_evaluate(pi, dict(b))
     acc.exhaustive.append("all ordered pairs of (runner, declaration kind) environment creations" + (" and all triples" if ctx.thorough else " and a sample of triples"))
 
 
